@@ -347,7 +347,7 @@ class DataFrame:
                 vals = list(v._vals)
             else:
                 vals = list(v._aligned_to(self.index))
-            dt = v._dtype if v._dtype in _STICKY else None
+            dt = v._dtype if (v._dtype in _STICKY or v._dtype in ("int8", "int16", "int32")) else None
         elif isinstance(v, Index):
             vals = list(v._vals)
         elif isinstance(v, (str, bytes, dict)) or not _is_listlike(v):
